@@ -5,9 +5,26 @@ import Pendulum.Model.Native
   `c11az <zref> <wall> <fold> <zref'> <same>`                   → `ok <wall> <offset> <fold>`
   `c11cmp <same> <zrefA> <wallA> <foldA> <zrefB> <wallB> <foldB>` → `ok <cmp> <eq>`
   `c11sub <same> <zrefA> <wallA> <foldA> <zrefB> <wallB> <foldB>` → `ok <a - b in µs>`
-  `c11repl <zref> <wall> <fold> <wall'> <fold'>`                → `ok <wall> <offset> <fold>` -/
+  `c11repl <zref> <wall> <fold> <wall'> <fold'>`                → `ok <wall> <offset> <fold>`
+  `c11parts <zref> <wall> <fold>`      date() time() timetz()    → `ok <ty> <ord> <ty> <tod> <tz> <fold> <ty> <tod> <tz> <fold>`
+  `c11comb <zrefTime> <ord> <tod> <fold> <zrefArg>`  combine     → `ok <ty> <wall> <offset> <fold>`
+  `c11dford <n>` / `c11drepl <ord> <y|x> <m|x> <d|x>`            → `ok <ty> <ord>`
+  `c11dsub <ordA> <ordB>`                                       → `ok <ty> <µs>`
+  `c11trepl <tod> <tz> <fold> <h|x> <m|x> <s|x> <us|x> <k|c|id> <fold|x>` → `ok <ty> <tod> <tz> <fold>`
+  `c11tsub <s|r> <todSelf> <tzSelf> <todOther> <tzOther>`        → `ok <ty> <µs>`
+(`<ty>` = `Native.Ty.code`; a time's `<tz>` = 0 for None, else the identity of the tzinfo object; errors `err <Name>`) -/
 namespace Pendulum.Drv.C11
 open Pendulum Pendulum.Drv Pendulum.DTOps Pendulum.Native
+
+def optInt (w : String) : Option (Option Int) := if w == "x" then some none else w.toInt?.map some
+def optBool (w : String) : Option (Option Bool) := if w == "x" then some none else some (some (w == "1"))
+def tzId (w : String) : Option (Option Nat) := w.toNat?.map fun k => if k == 0 then none else some k
+def tzW (k : Option Nat) : Int := match k with | none => 0 | some k => k
+def tvWords (r : Ty × TV) : List Int := [r.1.code, r.2.tod, tzW r.2.tz, b2i r.2.fold]
+
+def replyE : Except Ex (List Int) → String
+  | .ok xs => okInts xs
+  | .error e => "err " ++ e.name
 
 def handle (zs : Zones) (ws : List String) : Option String :=
   match ws with
@@ -32,6 +49,53 @@ def handle (zs : Zones) (ws : List String) : Option String :=
     let v ← parseV zs z w f
     let w' ← w'.toInt?
     some (replyV (Native.replace v w' (f' == "1")))
+  | ["c11parts", z, w, f] => do
+    let v ← parseV zs z w f
+    let k : Option Nat := match v.z with | .naive => none | _ => some 1
+    some (replyE (do
+      let d ← pDateOf v
+      let t ← pTimeOf v
+      let tz ← pTimetzOf v k
+      pure ([d.1.code, d.2] ++ tvWords t ++ tvWords tz)))
+  | ["c11comb", z, o, t, f, za] => do
+    let z ← parseZRef zs z
+    let za ← parseZRef zs za
+    let o ← o.toInt?
+    let t ← t.toInt?
+    match pCombine o t z (f == "1") za with
+    | .ok (ty, v) => some (okInts [ty.code, v.w, v.offset, b2i v.fold])
+    | .error e => some ("err " ++ e.name)
+  | ["c11dford", n] => do
+    let n ← n.toInt?
+    some (replyE ((pFromOrdinal n).map fun r => [r.1.code, r.2]))
+  | ["c11drepl", n, y, m, d] => do
+    let n ← n.toInt?
+    let y ← optInt y
+    let m ← optInt m
+    let d ← optInt d
+    some (replyE ((pDateReplace n y m d).map fun r => [r.1.code, r.2]))
+  | ["c11dsub", a, b] => do
+    let a ← a.toInt?
+    let b ← b.toInt?
+    some (replyE ((pDateSub a b).map fun r => [r.1.code, r.2]))
+  | ["c11trepl", tod, tz, f, h, m, s, us, ta, fa] => do
+    let tod ← tod.toInt?
+    let tz ← tzId tz
+    let h ← optInt h
+    let m ← optInt m
+    let s ← optInt s
+    let us ← optInt us
+    let ta ← (if ta == "k" then some TzArg.keep else if ta == "c" then some TzArg.clear else ta.toNat?.map TzArg.set)
+    let fa ← optBool fa
+    some (replyE ((pTimeReplace ⟨tod, tz, f == "1"⟩ h m s us ta fa).map tvWords))
+  | ["c11tsub", how, ta, za, tb, zb] => do
+    let ta ← ta.toInt?
+    let za ← tzId za
+    let tb ← tb.toInt?
+    let zb ← tzId zb
+    let a : TV := ⟨ta, za, false⟩
+    let b : TV := ⟨tb, zb, false⟩
+    some (replyE ((if how == "r" then pTimeRsub a b else pTimeSub a b).map fun r => [r.1.code, r.2]))
   | _ => none
 
 end Pendulum.Drv.C11
